@@ -435,6 +435,15 @@ impl<Z: ZNum> Expect<Z> {
             Expect::Skip => true,
         }
     }
+    /// keep only the panic / no-panic part of the expectation
+    pub fn panic_only(self) -> Self {
+        match self {
+            Expect::Is(Obs::Panic) => Expect::Is(Obs::Panic),
+            Expect::Is(_) | Expect::Either(..) | Expect::NoPanic | Expect::AnyErr | Expect::FlagOnly(_) => Expect::NoPanic,
+            Expect::Unspec => Expect::Unspec,
+            Expect::Skip => Expect::Skip,
+        }
+    }
     /// "rare side" of the contract: flag set, None, panic, error
     pub fn nontrivial(&self) -> bool {
         match self {
